@@ -21,7 +21,7 @@ def main():
         print(json.dumps({k: d.get(k) for k in ('verdict', 'detail', 'model')}, indent=1))
         return 1
     from pyvc import replay
-    obs = replay.native_calls([job])[0]
+    obs = replay.native_calls([job], setup=job.get('setup'))[0]
     print('input     :', json.dumps(rp.get('args')))
     print('expected  :', rp.get('expected'))
     print('observed  :', json.dumps(obs))
